@@ -53,6 +53,7 @@ def strat(tier):
             st.tuples(st.just('update_iter'), st.lists(key, max_size=12), st.sampled_from(['list', 'iter', 'tuple'])),
             st.tuples(st.just('update_map'), st.lists(st.tuples(key, cnt).map(list), max_size=5), st.sampled_from(['dict', 'counter', 'odict', 'proxy', 'chainmap', 'userdict'])),
             st.tuples(st.just('update_kw'), st.lists(st.tuples(key, cnt).map(list), min_size=1, max_size=4)),
+            st.tuples(st.just('update_reentrant'), st.lists(key, min_size=1, max_size=8), key),
             st.tuples(st.just('update_both'), st.lists(key, max_size=6), st.lists(st.tuples(key, cnt).map(list), min_size=1, max_size=3)),
             st.tuples(st.just('plan'),
                       st.lists(st.tuples(st.integers(2, 6), st.integers(1, 30)).map(list), max_size=4),
@@ -200,6 +201,9 @@ def run(case):
                 ok = not rest or min(counts) >= max(rest)
             if not ok:
                 return bad('most_common', 'most_common(%s) -> %r for counts %r' % ('' if nn is None else nn, got, d))
+            # the list belongs to the caller: the next query must not be served from it
+            got.reverse()
+            got.append((('POISON',), -1))
         # size clause
         if len(d) > 2.0 / threshold:
             b = total // w
@@ -236,6 +240,22 @@ def run(case):
             ks = [K(i) for i in op[1]]
             arg = {'list': list, 'tuple': tuple, 'iter': iter}[op[2]](ks)
             calls.append(('update(%s)' % op[2], ks, lambda a=arg: tc.update(a)))
+        elif name == 'update_reentrant':
+            # update() from a lazy source that itself adds to the same counter while it is being consumed
+            # (e.g. a generator over words that also tallies an end-of-line marker): every addition counts, in the order made
+            ks1 = [K(i) for i in op[1]]
+            extra_k = K(op[2])
+            ks = []
+            for k in ks1:
+                ks += [extra_k, k]
+
+            def reentrant(ks1=ks1, extra_k=extra_k):
+                def source():
+                    for k in ks1:
+                        tc.add(extra_k)
+                        yield k
+                return tc.update(source())
+            calls.append(('update(<generator that also calls add(%r) before each of %r>)' % (extra_k, ks1), ks, reentrant))
         elif name == 'update_map':
             d = collections.OrderedDict()
             for i, c in op[1]:
